@@ -312,7 +312,7 @@ fn single_item(v: &Value) -> Option<&Value> {
 pub fn run(cfg: &Cfg) -> Report {
   let mut rep = Report::new(
     "C09",
-    "ordered pairs (quick and thorough) and triples (a sample in quick; in thorough all over a core of every third value, all of one ordered kind, and three million random ones) over a value alphabet of ~120 fixed values (null, booleans, numbers incl. equal values of different scale and 34+ digit ones, strings, dates, times, date-times, both duration kinds, lists, contexts, ranges, functions, a list of ONE item of every value kind, lists of one such list, contexts of one boolean entry), plus random numbers / strings / dates; not(a) and if a then b else c for every value; a singleton list in each position of between / in. Non-trivial: at least one operand is not null; distinct by rendered request.",
+    "ordered pairs (quick and thorough) and triples (a sample in quick; in thorough all over a core of every third value, all of one ordered kind, and three million random ones) over a value alphabet of ~120 fixed values (null, booleans, numbers incl. equal values of different scale and 34+ digit ones, strings, dates, times, date-times, both duration kinds, lists, contexts, ranges, functions, a list of ONE item of every value kind, lists of one such list, contexts of one boolean entry), plus random numbers / strings / dates; not(a) and if a then b else c for every value; a singleton list in each position of between / in. Non-trivial: at least one operand is not null; distinct by rendered request. Family bound_operands: the same laws with the operands rebound under ONE built evaluator (endpoints computed from a variable by constructors and arithmetic; the variable bound by for / every / some / filters / a user function / a prepared evaluator over a sequence of scopes), each iteration judged by the agreement of the three forms, by a value computed in the harness and by a fresh evaluation.",
   );
   let mut model = Model::start(&cfg.driver);
   let mut rng = Rng::new(cfg.seed);
@@ -862,7 +862,392 @@ pub fn run(cfg: &Cfg) -> Report {
     }
   }
   }
+  bound_operands(&mut rep, cfg.seed, thorough);
   rep.exhaustive = thorough;
   rep.model_requests = model.requests;
   rep
+}
+
+// ====================================================================== operands bound by iteration / rebinding
+// The laws above are evaluated with one scope per operand tuple and (for literal endpoints) one evaluator per
+// tuple.  Here the operands are *computed from a variable that is rebound while one built evaluator is reused*:
+// the body of `for` / `every` / `some`, a filter over a list (of contexts, of items), a user function invoked
+// several times, and one prepared evaluator evaluated over a sequence of scopes (A, B, A, …).  Endpoints are made
+// from the variable by constructors and arithmetic (`date(y,1,1)`, `duration("P" + string(y) + "D")`, `-y`,
+// `y + 1`, `string(y)` …), so that the interval differs between iterations.
+// Oracle: (a) the law on the implementation's answers of one iteration (`x in [f..g]` = `x between f and g` =
+// `f <= x and x <= g`, open ends ↔ strict), (b) a written-out expectation computed here from integer keys of the
+// operands, (c) a fresh parse + build + evaluation in the scope of that iteration.
+
+struct BoundTpl {
+  kind: &'static str,
+  /// f and g may stand as interval endpoints as they are written (the grammar allows names and literals only)
+  simple: bool,
+  f: fn(&str) -> String,
+  g: fn(&str) -> String,
+  fk: fn(i64) -> i64,
+  gk: fn(i64) -> i64,
+  ys: (i64, i64),
+  /// the text of the value with the key k
+  x: fn(i64) -> String,
+  /// keys at and around the ends of the interval of y
+  near: fn(i64) -> Vec<i64>,
+}
+
+fn bound_templates() -> Vec<BoundTpl> {
+  vec![
+    BoundTpl {
+      kind: "date",
+      simple: true,
+      f: |v| format!("date({},1,1)", v),
+      g: |v| format!("date({},12,31)", v),
+      fk: |y| y * 10000 + 101,
+      gk: |y| y * 10000 + 1231,
+      ys: (2016, 2026),
+      x: |k| format!("date(\"{:04}-{:02}-{:02}\")", k / 10000, k / 100 % 100, k % 100),
+      near: |y| vec![y * 10000 + 101, y * 10000 + 1231, y * 10000 + 615, (y - 1) * 10000 + 1231, (y + 1) * 10000 + 101, y * 10000 + 102],
+    },
+    BoundTpl {
+      kind: "date",
+      simple: true,
+      f: |v| format!("date(2021,{},1)", v),
+      g: |v| format!("date(2021,{} + 1,1)", v),
+      fk: |y| y * 100 + 1,
+      gk: |y| (y + 1) * 100 + 1,
+      ys: (1, 11),
+      x: |k| format!("date(\"2021-{:02}-{:02}\")", k / 100, k % 100),
+      near: |y| vec![y * 100 + 1, (y + 1) * 100 + 1, y * 100 + 15, y * 100 + 28, (y + 1) * 100 + 2, y * 100 + 2],
+    },
+    BoundTpl {
+      kind: "number",
+      simple: false,
+      f: |v| format!("-{}", v),
+      g: |v| format!("{} + 1", v),
+      fk: |y| -y,
+      gk: |y| y + 1,
+      ys: (0, 7),
+      x: |k| format!("({})", k),
+      near: |y| vec![-y, y + 1, 0, -y - 1, y + 2, y],
+    },
+    BoundTpl {
+      kind: "number",
+      simple: false,
+      f: |v| format!("{} * 3", v),
+      g: |v| format!("{} * 3 + 2.0", v),
+      fk: |y| y * 3,
+      gk: |y| y * 3 + 2,
+      ys: (-4, 4),
+      x: |k| format!("({})", k),
+      near: |y| vec![y * 3, y * 3 + 2, y * 3 + 1, y * 3 - 1, y * 3 + 3],
+    },
+    BoundTpl {
+      kind: "days and time duration",
+      simple: true,
+      f: |v| format!("duration(\"P\" + string({}) + \"D\")", v),
+      g: |v| format!("duration(\"P\" + string({} + 3) + \"D\")", v),
+      fk: |y| y,
+      gk: |y| y + 3,
+      ys: (1, 9),
+      x: |k| format!("duration(\"P{}D\")", k),
+      near: |y| vec![y, y + 3, y + 1, y - 1, y + 4],
+    },
+    BoundTpl {
+      kind: "years and months duration",
+      simple: true,
+      f: |v| format!("duration(\"P\" + string({}) + \"M\")", v),
+      g: |v| format!("duration(\"P1Y\" + string({}) + \"M\")", v),
+      fk: |y| y,
+      gk: |y| y + 12,
+      ys: (1, 9),
+      x: |k| format!("duration(\"P{}M\")", k),
+      near: |y| vec![y, y + 12, y + 5, y - 1, y + 13],
+    },
+    BoundTpl {
+      kind: "time",
+      simple: true,
+      f: |v| format!("time({},0,0)", v),
+      g: |v| format!("time({} + 1,30,0)", v),
+      fk: |y| y * 3600,
+      gk: |y| (y + 1) * 3600 + 1800,
+      ys: (1, 21),
+      x: |k| format!("time(\"{:02}:{:02}:{:02}\")", k / 3600, k / 60 % 60, k % 60),
+      near: |y| vec![y * 3600, (y + 1) * 3600 + 1800, y * 3600 + 1800, y * 3600 - 1, (y + 1) * 3600 + 1801],
+    },
+    BoundTpl {
+      kind: "date and time",
+      simple: true,
+      f: |v| format!("date and time(date(2021,{},1), time(0,0,0))", v),
+      g: |v| format!("date and time(date(2021,{},28), time(12,0,0))", v),
+      fk: |y| y * 1000000 + 10000,
+      gk: |y| y * 1000000 + 281200,
+      ys: (1, 12),
+      x: |k| format!("date and time(\"2021-{:02}-{:02}T{:02}:{:02}:00\")", k / 1000000, k / 10000 % 100, k / 100 % 100, k % 100),
+      near: |y| vec![y * 1000000 + 10000, y * 1000000 + 281200, y * 1000000 + 150600, y * 1000000 + 281201, y * 1000000 + 10001],
+    },
+    BoundTpl {
+      kind: "string",
+      simple: false,
+      f: |v| format!("string({})", v),
+      g: |v| format!("string({} + 2)", v),
+      fk: |y| y,
+      gk: |y| y + 2,
+      // one digit: the order of the strings is the order of the keys
+      ys: (1, 6),
+      x: |k| format!("\"{}\"", k),
+      near: |y| vec![y, y + 2, y + 1, y - 1, y + 3],
+    },
+  ]
+}
+
+fn list_items(v: &Value) -> Vec<Value> {
+  match v {
+    Value::List(items) => items.as_vec().clone(),
+    other => vec![other.clone()],
+  }
+}
+
+fn is_parse_error(v: &Value) -> bool {
+  matches!(v, Value::Null(Some(m)) if m == "parse error" || m == "build error")
+}
+
+fn bound_operands(rep: &mut Report, seed: u64, thorough: bool) {
+  let mut rng = Rng::new(seed ^ 0x09b0_77d0);
+  let rounds = if thorough { 40 } else { 5 };
+  let empty = Scope::default();
+  let num = |n: i64| Value::Number(FeelNumber::new(n as i128, 0));
+  let b3 = |b: Option<bool>| match b { Some(true) => "true", Some(false) => "false", None => "null" };
+  let mut evaluated = 0usize;
+  for tpl in bound_templates() {
+    for _ in 0..rounds {
+      // values of the bound variable: A, B, A, then one or two more (the interval differs between neighbours)
+      let ya = rng.range(tpl.ys.0, tpl.ys.1);
+      let mut yb = rng.range(tpl.ys.0, tpl.ys.1);
+      if yb == ya {
+        yb = if ya < tpl.ys.1 { ya + 1 } else { ya - 1 };
+      }
+      let mut ys = vec![ya, yb, ya];
+      for _ in 0..rng.below(3) {
+        ys.push(rng.range(tpl.ys.0, tpl.ys.1));
+      }
+      let y0 = *rng.pick(&ys);
+      let xk = *rng.pick(&(tpl.near)(y0));
+      let x = (tpl.x)(xk);
+      let ys_txt = ys.iter().map(|y| y.to_string()).collect::<Vec<_>>().join(", ");
+      for (lc, rc) in [(true, true), (true, false), (false, true), (false, false)] {
+        let (lb, rb) = (if lc { "[" } else { "(" }, if rc { "]" } else { ")" });
+        let (lo, ro) = (if lc { "<=" } else { "<" }, if rc { "<=" } else { "<" });
+        let by_names = !tpl.simple || rng.chance(1, 4);
+        let by_function = by_names && rng.chance(1, 2);
+        // the three forms over the variable v
+        let e_in = |v: &str| -> String {
+          let (f, g) = ((tpl.f)(v), (tpl.g)(v));
+          if !by_names {
+            format!("{} in {}{}..{}{}", x, lb, f, g, rb)
+          } else if by_function {
+            format!("{{q_: function(lo_, hi_) {} in {}lo_..hi_{}, r_: q_({}, {})}}.r_", x, lb, rb, f, g)
+          } else {
+            format!("{{lo_: {}, hi_: {}, r_: {} in {}lo_..hi_{}}}.r_", f, g, x, lb, rb)
+          }
+        };
+        let e_cmp = |v: &str| format!("{} {} {} and {} {} {}", (tpl.f)(v), lo, x, x, ro, (tpl.g)(v));
+        let e_bt = |v: &str| format!("{} between {} and {}", x, (tpl.f)(v), (tpl.g)(v));
+        let closed = lc && rc;
+        let expect = |y: i64| -> bool {
+          let (f, g) = ((tpl.fk)(y), (tpl.gk)(y));
+          (if lc { f <= xk } else { f < xk }) && (if rc { xk <= g } else { xk < g })
+        };
+        let expected: Vec<bool> = ys.iter().map(|y| expect(*y)).collect();
+        // per-iteration answers [in, cmp, between?] of every wrapper
+        let mut per_wrapper: Vec<(&str, String, Vec<Vec<Value>>)> = vec![];
+        // for
+        {
+          let forms = if closed { format!("[{}, {}, {}]", e_in("y"), e_cmp("y"), e_bt("y")) } else { format!("[{}, {}]", e_in("y"), e_cmp("y")) };
+          let text = format!("for y in [{}] return {}", ys_txt, forms);
+          let r = guarded(|| eval_text(&empty, &text)).unwrap_or(Value::Null(Some("panic".into())));
+          per_wrapper.push(("for", text, list_items(&r).iter().map(list_items).collect()));
+        }
+        // a user function invoked once per value
+        {
+          let forms = if closed { format!("[{}, {}, {}]", e_in("y"), e_cmp("y"), e_bt("y")) } else { format!("[{}, {}]", e_in("y"), e_cmp("y")) };
+          let calls = ys.iter().map(|y| format!("w_({})", y)).collect::<Vec<_>>().join(", ");
+          let text = format!("{{w_: function(y) {}, s_: [{}]}}.s_", forms, calls);
+          let r = guarded(|| eval_text(&empty, &text)).unwrap_or(Value::Null(Some("panic".into())));
+          per_wrapper.push(("function", text, list_items(&r).iter().map(list_items).collect()));
+        }
+        // one prepared evaluator per form, evaluated over the sequence of scopes
+        {
+          let names = scope_of(&[("y", &Value::Null(None))]);
+          let mut forms = vec![e_in("y"), e_cmp("y")];
+          if closed {
+            forms.push(e_bt("y"));
+          }
+          let mut evs: Vec<Option<Evaluator>> = vec![];
+          for t in &forms {
+            crate::util::note_case(t);
+            evs.push(dmntk_feel_parser::parse_expression(&names, t, false).ok().and_then(|n| dmntk_feel_evaluator::prepare(&n).ok()));
+          }
+          let text = format!("prepared once: {} over y = {}", forms.join(" ; "), ys_txt);
+          let rows: Vec<Vec<Value>> = ys
+            .iter()
+            .map(|y| {
+              let scope = scope_of(&[("y", &num(*y))]);
+              evs.iter().map(|e| match e {
+                Some(e) => guarded(|| e(&scope)).unwrap_or(Value::Null(Some("panic".into()))),
+                None => Value::Null(Some("parse error".into())),
+              }).collect()
+            })
+            .collect();
+          per_wrapper.push(("prepared", text, rows));
+        }
+        for (wrapper, text, rows) in &per_wrapper {
+          if rows.iter().flatten().any(is_parse_error) || rows.len() != ys.len() {
+            rep.hit(&format!("bound:{}:{}:not evaluated", tpl.kind, wrapper));
+            if rep.notes.len() < 40 {
+              rep.notes.push(format!("bound operands: {} does not parse / build or is not a list of {} answers", text, ys.len()));
+            }
+            continue;
+          }
+          rep.case(text, true);
+          evaluated += 1;
+          rep.hit(&format!("bound:{}:{}", tpl.kind, wrapper));
+          for (n, row) in rows.iter().enumerate() {
+            let y = ys[n];
+            let got: Vec<Option<bool>> = row.iter().map(as_bool).collect();
+            let input = format!("{} — iteration {} (y = {})", text, n + 1, y);
+            let shown = format!("in={} comparisons={}{}", b3(got[0]), b3(*got.get(1).unwrap_or(&None)), if closed { format!(" between={}", b3(*got.get(2).unwrap_or(&None))) } else { String::new() });
+            // (a) the law on the implementation's answers
+            if got.iter().any(|g| *g != got[0]) {
+              rep.disagree(
+                Kind::ImplVsSpec,
+                "bound_operands",
+                &format!("x in interval, x between and the comparisons disagree when the endpoints are computed from a variable bound by {} ({})", wrapper, tpl.kind),
+                &input,
+                &shown,
+                "the three forms agree",
+              );
+            }
+            // (b) the written-out expectation
+            if got.iter().any(|g| *g != Some(expected[n])) {
+              rep.disagree(
+                Kind::ImplVsSpec,
+                "bound_operands",
+                &format!("interval membership with endpoints computed from a variable bound by {} differs from the written-out answer ({})", wrapper, tpl.kind),
+                &input,
+                &shown,
+                &format!("{} ({} {} {} and {} {} {} on the keys)", expected[n], (tpl.fk)(y), lo, xk, xk, ro, (tpl.gk)(y)),
+              );
+            }
+            // (c) a fresh evaluation in the scope of this iteration
+            let scope = scope_of(&[("y", &num(y))]);
+            let fresh = guarded(|| eval_text(&scope, &e_in("y"))).unwrap_or(Value::Null(Some("panic".into())));
+            rep.evaluations += 1;
+            if as_bool(&fresh) != got[0] {
+              rep.disagree(
+                Kind::ImplVsSpec,
+                "bound_operands",
+                &format!("x in interval inside {} differs from a fresh evaluation in the scope of that iteration ({})", wrapper, tpl.kind),
+                &input,
+                b3(got[0]),
+                b3(as_bool(&fresh)),
+              );
+            }
+          }
+        }
+        // quantifiers and filters: one answer for the whole sequence
+        let all = expected.iter().all(|b| *b);
+        let any = expected.iter().any(|b| *b);
+        let ctxs = ys.iter().enumerate().map(|(i, y)| format!("{{y: {}, i: {}}}", y, i)).collect::<Vec<_>>().join(", ");
+        let idx_true: Vec<Value> = expected.iter().enumerate().filter(|(_, b)| **b).map(|(i, _)| num(i as i64)).collect();
+        let ys_true: Vec<Value> = expected.iter().enumerate().filter(|(_, b)| **b).map(|(i, _)| num(ys[i])).collect();
+        let lst = |v: &[Value]| format!("[{}]", v.iter().map(show).collect::<Vec<_>>().join(" "));
+        let whole: Vec<(&str, String, String)> = vec![
+          ("every", format!("every y in [{}] satisfies ({}) = ({})", ys_txt, e_in("y"), e_cmp("y")), "true".into()),
+          ("some", format!("some y in [{}] satisfies ({}) != ({})", ys_txt, e_in("y"), if closed { e_bt("y") } else { e_cmp("y") }), "false".into()),
+          ("every", format!("every y in [{}] satisfies {}", ys_txt, e_in("y")), all.to_string()),
+          ("some", format!("some y in [{}] satisfies {}", ys_txt, e_in("y")), any.to_string()),
+          ("a filter over contexts", format!("[{}][{}]", ctxs, e_in("y")), lst(&idx_true)),
+          ("a filter over items", format!("[{}][{}]", ys_txt, e_in("item")), lst(&ys_true)),
+          ("a filter over items", format!("count([{}][{}]) = count([{}][{}])", ys_txt, e_in("item"), ys_txt, e_cmp("item")), "true".into()),
+        ];
+        for (wrapper, text, want) in &whole {
+          // (the entries of the filtered contexts are no names for the parser: `y + 1` would be read as one name;
+          // the name y is made known by an outer scope that binds it to null, the entry of the item shadows it)
+          let outer = if *wrapper == "a filter over contexts" { scope_of(&[("y", &Value::Null(None))]) } else { Scope::default() };
+          let r = guarded(|| eval_text(&outer, text)).unwrap_or(Value::Null(Some("panic".into())));
+          if is_parse_error(&r) {
+            rep.hit(&format!("bound:{}:{}:not evaluated", tpl.kind, wrapper));
+            if rep.notes.len() < 40 {
+              rep.notes.push(format!("bound operands: {} does not parse / build", text));
+            }
+            continue;
+          }
+          rep.case(text, true);
+          evaluated += 1;
+          rep.hit(&format!("bound:{}:{}", tpl.kind, wrapper));
+          // a filter answers with the selected items (a single selected item may come without its list); of a
+          // selected context the entry `i` is read here
+          let got = match &r {
+            Value::Boolean(b) => b.to_string(),
+            other => lst(
+              &list_items(other)
+                .iter()
+                .map(|v| match v {
+                  Value::Context(ctx) => ctx.get_entries().iter().find(|(k, _)| k.to_string() == "i").map(|(_, x)| (*x).clone()).unwrap_or(Value::Null(None)),
+                  x => x.clone(),
+                })
+                .collect::<Vec<_>>(),
+            ),
+          };
+          if &got != want {
+            rep.disagree(
+              Kind::ImplVsSpec,
+              "bound_operands",
+              &format!("interval membership with endpoints computed from a variable bound by {} differs from the written-out answer ({})", wrapper, tpl.kind),
+              text,
+              &got,
+              want,
+            );
+          }
+        }
+      }
+      // equality and ordering of the computed operand with the variable bound by `for`
+      {
+        let (f, text_x) = ((tpl.f)("y"), &x);
+        let text = format!(
+          "for y in [{}] return [{f} < {x}, {x} > {f}, {f} = {x}, {x} = {f}, {f} <= {x}, {x} >= {f}, {f} != {x}, {f} > {x}, {x} < {f}]",
+          ys_txt,
+          f = f,
+          x = text_x
+        );
+        let r = guarded(|| eval_text(&empty, &text)).unwrap_or(Value::Null(Some("panic".into())));
+        let rows: Vec<Vec<Value>> = list_items(&r).iter().map(list_items).collect();
+        if is_parse_error(&r) || rows.len() != ys.len() {
+          rep.hit(&format!("bound:{}:order:not evaluated", tpl.kind));
+          if rep.notes.len() < 40 {
+            rep.notes.push(format!("bound operands: {} does not parse / build", text));
+          }
+        } else {
+          rep.case(&text, true);
+          evaluated += 1;
+          rep.hit(&format!("bound:{}:order", tpl.kind));
+          for (n, row) in rows.iter().enumerate() {
+            let fkey = (tpl.fk)(ys[n]);
+            let want = [fkey < xk, fkey < xk, fkey == xk, fkey == xk, fkey <= xk, fkey <= xk, fkey != xk, fkey > xk, fkey > xk];
+            let got: Vec<Option<bool>> = row.iter().map(as_bool).collect();
+            if got.len() != want.len() || got.iter().zip(want.iter()).any(|(g, w)| *g != Some(*w)) {
+              rep.disagree(
+                Kind::ImplVsSpec,
+                "bound_operands",
+                &format!("equality / ordering of an operand computed from a variable bound by for differs from the written-out answer ({})", tpl.kind),
+                &format!("{} — iteration {} (y = {})", text, n + 1, ys[n]),
+                &format!("{:?}", got),
+                &format!("{:?} (keys {} and {})", want, fkey, xk),
+              );
+            }
+          }
+        }
+      }
+    }
+  }
+  rep.extra.insert("bound_operand_expressions".into(), json!(evaluated));
 }
